@@ -24,7 +24,10 @@ def H(*steps):
     out = []
     for st in steps:
         d = {"act": st[0], "name": [], "name2": [], "ref": [], "pat": [], "lsub": False}
-        if st[0] in ("List", "Lsub"):
+        if st[0] in ("ListSel", "ListRet"):      # LIST (SUBSCRIBED) ref pat / LIST ref pat RETURN (SUBSCRIBED)
+            d.update(act="List", ref=ch(st[1]), pat=ch(st[2]), pats=[ch(st[2])],
+                     sel="SUBSCRIBED" if st[0] == "ListSel" else "", ret="SUBSCRIBED" if st[0] == "ListRet" else "")
+        elif st[0] in ("List", "Lsub"):
             d.update(ref=ch(st[1]), pat=ch(st[2]), pats=[ch(x) for x in st[2:]], lsub=st[0] == "Lsub")
         elif st[0] == "Rename":
             d.update(name=ch(st[1]), name2=ch(st[2]))
@@ -40,7 +43,9 @@ DIRECTED = {
         ("Create", "cold"), ("Create", "homework"),
         ("List", "", "work", "old"), ("List", "", "old", "work"), ("List", "", "work", "misc", "old"),
         ("List", "", "%", "work/%"), ("List", "", "wor", "ol"), ("List", "misc/", "old", "%"),
-        ("Subscribe", "work"), ("Subscribe", "misc/old"), ("Lsub", "", "*"), ("List", "", "work", "old")),
+        ("Subscribe", "work"), ("Subscribe", "misc/old"), ("Lsub", "", "*"), ("List", "", "work", "old"),
+        ("ListSel", "", "*"), ("ListRet", "", "*"), ("ListSel", "", "work*"), ("ListRet", "misc/", "%"),
+        ("Delete", "misc/old"), ("ListSel", "", "*"), ("ListRet", "", "*"), ("Unsubscribe", "work"), ("ListRet", "", "%")),
     # a parent whose only child was renamed away is a leaf again
     "child_renamed_away_then_delete_parent": H(
         ("Create", "top/kid"), ("Rename", "top/kid", "elsewhere"), ("List", "", "*"), ("Delete", "top"), ("List", "", "*"),
@@ -114,7 +119,7 @@ def run(ck, prefixes, *, ns_ops, sim, probes_n, probe_sample, cover=None):
             elif r.rc != 0:
                 raise RuntimeError(f"TLC simulate failed on Namespace: {r.error}")
             for i, beh in enumerate(mailreplay.load_behaviours(pre)):
-                steps = [{k: st["last"][k] for k in ("act", "name", "name2", "ref", "pat", "pats", "lsub")} for st in beh[1:]]
+                steps = [{k: st["last"][k] for k in ("act", "name", "name2", "ref", "pat", "pats", "lsub", "sel", "ret")} for st in beh[1:]]
                 jobs.append(("history", f"sim{i}", steps, ck.seed * 1000 + i))
             for name, steps in DIRECTED.items():
                 jobs.append(("history", name, steps, 1))
